@@ -56,9 +56,12 @@ type Op struct {
 	// Update / WriteUpdateWithXattrs
 	Cb    string   `json:"cb,omitempty"` // set | delete | cancel | error | retry | expOnly
 	CbExp *ExpSpec `json:"cbExp,omitempty"`
-	Tomb  bool     `json:"tomb,omitempty"` // UpdatedDoc.IsTombstone
-	Prev  string   `json:"prev,omitempty"` // "" | current | stale
-	XKeys []string `json:"xkeys,omitempty"`
+	// CbExpOnce: the callback returns the expiry only on its first invocation (a retried attempt
+	// returns none: nothing of the abandoned attempt may be applied)
+	CbExpOnce bool     `json:"cbExpOnce,omitempty"`
+	Tomb      bool     `json:"tomb,omitempty"` // UpdatedDoc.IsTombstone
+	Prev      string   `json:"prev,omitempty"` // "" | current | stale
+	XKeys     []string `json:"xkeys,omitempty"`
 
 	// Incr
 	Amt, Def uint64 `json:",omitempty"`
@@ -445,7 +448,7 @@ func (w *World) exec(op Op, res *Result) {
 					return sgbucket.UpdatedDoc{}, sgbucket.ErrCasFailureShouldRetry
 				}
 				ud := sgbucket.UpdatedDoc{Doc: op.Body, Xattrs: xattrArg(op), XattrsToDelete: xdelArg(op), IsTombstone: op.Tomb}
-				if op.CbExp != nil {
+				if op.CbExp != nil && !(op.CbExpOnce && calls > 1) {
 					e := res.CbExpArg
 					ud.Expiry = &e
 				}
